@@ -275,4 +275,43 @@ theorem dimacsCoords_fits (G : List DimacsCoItem)
       · subst hc; exact ⟨h1.2, h1.1⟩
       · exact ih' c hc
 
+theorem metisEdgesFrom_fits (n i : Nat) (adj : List (List Nat)) (hn : n < 18446744073709551616)
+    (hlen : i + adj.length ≤ n) (hr : ∀ nbrs ∈ adj, ∀ t ∈ nbrs, 1 ≤ t ∧ t ≤ n) :
+    ∀ e ∈ metisEdgesFrom i adj, EdgeFits e := by
+  induction adj generalizing i with
+  | nil => intro e he; simp [metisEdgesFrom] at he
+  | cons nbrs adj ih =>
+    simp only [List.length_cons] at hlen
+    intro e he
+    simp only [metisEdgesFrom, List.mem_append, List.mem_map, List.mem_filter] at he
+    rcases he with ⟨t, ⟨ht, _⟩, rfl⟩ | he
+    · have := hr nbrs (by simp) t ht
+      unfold EdgeFits; simp only; omega
+    · exact ih (i + 1) (by omega) (fun nb hnb => hr nb (List.mem_cons_of_mem _ hnb)) e he
+
+theorem ddsgEdges_fits (arcs : List DdsgArc)
+    (hf : ∀ a ∈ arcs, a.u < 18446744073709551616 ∧ a.v < 18446744073709551616 ∧ a.w < 18446744073709551616) :
+    ∀ e ∈ ddsgEdges arcs, EdgeFits e := by
+  induction arcs with
+  | nil => intro e he; simp [ddsgEdges] at he
+  | cons a arcs ih =>
+    have h1 := hf a (by simp)
+    intro e he
+    simp only [ddsgEdges, List.mem_append] at he
+    rcases he with he | he
+    · unfold ddsgArcEdges at he
+      split at he
+      · simp at he
+      · split at he
+        · simp only [List.mem_cons, List.not_mem_nil, or_false] at he
+          rcases he with rfl | rfl <;> (unfold EdgeFits; simp only; omega)
+        · split at he
+          · simp only [List.mem_cons, List.not_mem_nil, or_false] at he
+            subst he; unfold EdgeFits; simp only; omega
+          · split at he
+            · simp only [List.mem_cons, List.not_mem_nil, or_false] at he
+              subst he; unfold EdgeFits; simp only; omega
+            · simp at he
+    · exact ih (fun b hb => hf b (List.mem_cons_of_mem _ hb)) e he
+
 end Tbx.PlierRender
